@@ -405,11 +405,90 @@ Definition time_shifted_gen (shift : Z) : option bool := {boolx(c5, tp[0].test)}
 Definition time_zero_gen (initially : bool) : option bool := {boolx(c5, tp[0].orelse[0].test)}.''')
 
 
+# ------------------------------------------------------------------------------------------------ TelApp: print_model, option parsers
+def gen_app(out):
+    tree = parse('telingo/__init__.py')
+    pm = find_fun(tree, 'print_model', 'TelApp')
+    fors = [n for n in pm.body if isinstance(n, ast.For)]
+    if len(fors) != 2 or ast.unparse(fors[0].iter) != 'model.symbols(shown=True)' or ast.unparse(fors[1].target) != 'step':
+        raise Unsupported('print_model loops')
+    f0 = fors[0]
+    if not (len(f0.body) == 1 and isinstance(f0.body[0], ast.If) and not f0.body[0].orelse and len(f0.body[0].body) == 1):
+        raise Unsupported('print_model table loop')
+    ins = ast.unparse(f0.body[0].body[0])
+    if ins != 'table.setdefault(sym.arguments[-1].number, []).append(Function(sym.name, sym.arguments[:-1], sym.positive))':
+        raise Unsupported('print_model table insertion: ' + ins)
+    c = Ctx({'is_fun': 'bool', 'nargs': 'nat', 'dunder': 'bool', 'horizon': 'nat'}, subst={
+        'sym.type == SymbolType.Function': 'is_fun', 'len(sym.arguments)': ':(Some (Z.of_nat nargs))',
+        'sym.arguments[-1].type == SymbolType.Number': ':(if Nat.ltb 0 nargs then Some last_is_num else None)',
+        "sym.name.startswith('__')": 'dunder', 'self.__horizon': 'horizon'})
+    printable = boolx(c, f0.body[0].test)
+    f1 = fors[1]
+    if not (isinstance(f1.iter, ast.Call) and ast.unparse(f1.iter.func) == 'range' and len(f1.iter.args) == 1):
+        raise Unsupported('print_model state range')
+    nstates = num(c, f1.iter.args[0])
+    if ast.unparse(f1.body[0]) != 'symbols = table.get(step, [])':
+        raise Unsupported('print_model table lookup')
+    inner = [n for n in f1.body if isinstance(n, ast.For)]
+    if len(inner) != 1 or ast.unparse(inner[0].iter) != 'sorted(symbols)' or not (len(inner[0].body) == 1 and isinstance(inner[0].body[0], ast.If) and not inner[0].body[0].orelse):
+        raise Unsupported('print_model symbol loop')
+    visible = boolx(c, inner[0].body[0].test)
+    writes = [ast.unparse(x) for x in sorted((x for x in ast.walk(f1) if isinstance(x, ast.Call) and ast.unparse(x.func) == 'sys.stdout.write'),
+                                              key=lambda x: (x.lineno, x.col_offset))]
+    want = ["sys.stdout.write(' State {}:'.format(step))", "sys.stdout.write('\\n ')", "sys.stdout.write(' {}'.format(sym))", "sys.stdout.write('\\n')"]
+    if writes != want:
+        raise Unsupported('print_model output format: ' + repr(writes))
+    # option parsers: int(value) may raise ValueError; modelled by iv : option Z (None = int() raises)
+    def parser(name):
+        f = find_fun(tree, name, 'TelApp')
+        return [x for x in f.body if not (isinstance(x, ast.Expr) and isinstance(x.value, ast.Constant))]
+    def int_assign(stmts, attr):
+        """`self.<attr> = int(value)` possibly wrapped in try/except ValueError: return False -> (guarded?, rest)"""
+        st = stmts[0]
+        if isinstance(st, ast.Try):
+            if not (len(st.body) == 1 and ast.unparse(st.body[0]) == f'self.{attr} = int(value)' and len(st.handlers) == 1 and ast.unparse(st.handlers[0].type) == 'ValueError'
+                    and ast.unparse(st.handlers[0].body[0]) == 'return False' and not st.orelse and not st.finalbody):
+                raise Unsupported('try shape in option parser')
+            return True, stmts[1:]
+        if ast.unparse(st) == f'self.{attr} = int(value)':
+            return False, stmts[1:]
+        raise Unsupported('option parser assignment')
+    ci = Ctx({'v': 'Z'}, subst={'self.__imin': 'v', 'self.__imax': 'v'})
+    pi = parser('_TelApp__parse_imin') if False else parser('__parse_imin')
+    g_imin, rest = int_assign(pi, '__imin')
+    if len(rest) != 1 or not isinstance(rest[0], ast.Return):
+        raise Unsupported('parse_imin tail')
+    imin_ok = boolx(ci, rest[0].value)
+    px = parser('__parse_imax')
+    if not (len(px) == 3 and isinstance(px[0], ast.If) and ast.unparse(px[0].test) == 'len(value) > 0' and ast.unparse(px[1]) == 'self.__imax = None' and ast.unparse(px[2]) == 'return True'):
+        raise Unsupported('parse_imax shape')
+    g_imax, rest = int_assign(px[0].body, '__imax')
+    if len(rest) != 1 or not isinstance(rest[0], ast.Return):
+        raise Unsupported('parse_imax tail')
+    imax_ok = boolx(ci, rest[0].value)
+    ps = parser('__parse_istop')
+    if not (len(ps) == 2 and ast.unparse(ps[0]) == 'self.__istop = value.upper()' and isinstance(ps[1], ast.Return) and isinstance(ps[1].value, ast.Compare)
+            and isinstance(ps[1].value.ops[0], ast.In) and ast.unparse(ps[1].value.left) == 'self.__istop' and isinstance(ps[1].value.comparators[0], ast.List)):
+        raise Unsupported('parse_istop shape')
+    stops = [e.value for e in ps[1].value.comparators[0].elts]
+    def guard(g, body):
+        return f'match iv with None => {"Some false" if g else "None"} | Some v => {body} end'
+    out.append(f'''(* ---- telingo/__init__.py: TelApp.print_model and the option parsers ---- *)
+Definition printable_gen (is_fun : bool) (nargs : nat) (last_is_num : bool) : option bool := {printable}.
+Definition visible_gen (dunder : bool) : option bool := {visible}.
+Definition nstates_gen (horizon : nat) : option Z := {nstates}.
+(* iv = int(value): None if int() raises ValueError; result None = the exception escapes the parser *)
+Definition parse_imin_gen (iv : option Z) : option bool := {guard(g_imin, imin_ok)}.
+Definition parse_imax_gen (empty : bool) (iv : option Z) : option bool := if empty then Some true else {guard(g_imax, imax_ok)}.
+Definition istop_values_gen : list string := [{"; ".join('"%s"' % x for x in stops)}].''')
+
+
 # ------------------------------------------------------------------------------------------------ main
 # group -> (generated file under coq/Gen, fragment functions, Requires)
 GROUPS = {
     'imain': ('FromSource.v', [gen_imain], ['GenPrelude']),
     'transformers': ('FromTransformers.v', [gen_transformers], ['GenPrelude']),
+    'app': ('FromApp.v', [gen_app], ['GenPrelude']),
 }
 VERIF = os.path.dirname(os.path.dirname(os.path.abspath(__file__)))
 GEN = os.path.join(VERIF, 'coq', 'Gen')
